@@ -92,7 +92,16 @@ P = {
 }
 
 
+def _load_overrides():
+    """tools/manifest_texts.json (written from the per-property notes) overrides the texts above, key by key"""
+    fn = os.path.join(VERIF, 'tools', 'manifest_texts.json')
+    if os.path.exists(fn):
+        for pid, d in json.load(open(fn)).items():
+            P.setdefault(pid, {}).update({k: v for k, v in d.items() if k in ('text', 'note', 'technique', 'ref')})
+
+
 def main(claimed):
+    _load_overrides()
     props = [json.loads(l) for l in open(os.path.join(VERIF, 'properties.jsonl'))]
     checks, na = [], []
     for p in props:
